@@ -367,6 +367,49 @@ class Program:
                 yield u, fn
 
 
+_SRC = {}
+
+
+def source_line(file, line, repo=None):
+    from .cfront import REPO
+    repo = repo or REPO
+    key = (repo, file)
+    if key not in _SRC:
+        try:
+            with open(file if file.startswith("/") else os.path.join(repo, file), errors="replace") as f:
+                _SRC[key] = f.read().split("\n")
+        except OSError:
+            _SRC[key] = []
+    L = _SRC[key]
+    return L[line - 1] if line and 0 < line <= len(L) else ""
+
+
+_MEMORDER = {"0": "relaxed", "1": "consume", "2": "acquire", "3": "release", "4": "acq_rel", "5": "seq_cst"}
+
+
+def atomic_info(n, fn_file=None, repo=None):
+    """(op, order, pointer_text) of a C AtomicExpr; op from the spelled builtin name."""
+    if n is None or n.get("k") != "AtomicExpr":
+        return None
+    c = kids(n)
+    ptr = text(c[0]) if c else "?"
+    order = None
+    if len(c) > 1:
+        o = strip(c[1])
+        if o is not None and o.get("k") == "IntegerLiteral":
+            order = _MEMORDER.get(str(o.get("v")), str(o.get("v")))
+    sf = n.get("sfile") or n.get("file") or fn_file
+    sl = n.get("sline") or n.get("line")
+    op = None
+    if sf and sl:
+        for dl in (0, 1, -1, 2):
+            m = re.search(r"__atomic_([a-z_]+)|__c11_atomic_([a-z_]+)", source_line(sf, sl + dl, repo))
+            if m:
+                op = m.group(1) or m.group(2)
+                break
+    return op, order, ptr
+
+
 def require(cond, msg):
     if not cond:
         raise AnalysisError(msg)
